@@ -7,7 +7,9 @@ import XixiKV.Proofs.Record
 All statements are about the concrete model (`Chunk.crcCodec`: real CRC-32, real header layout)
 of `datafile/data_file.go` + `datafile/log_record.go`, for **every** file `f` (any size, hence any
 in-block start offset 0..32767 — not only files the writer produced), **every** non-empty payload
-(any number of blocks) and **every** continuation `post` of the file.
+(any number of blocks) and **every** continuation `post` of the file.  The sequential-reader
+statements hold for **both** kinds of reader: `tol = true` (the reader of the active file, which
+tolerates a torn tail) and `tol = false` (every other reader: older files, merge, hint file).
 
 Not covered by a theorem (said here so it is not silently missing): "both I/O back-ends store
 identical bytes" — the model has one logical byte string per file for both back-ends; that the two
@@ -27,28 +29,28 @@ theorem C11_readAt (f d post : ByteArray) (fid : Nat) (hd : 0 < d.size) :
 
 /-- sequential read-back of one record through the writer's padding rule, with the size the
     writer reported and an end position equal to the new file size -/
-theorem C11_next (f d post : ByteArray) (hd : 0 < d.size) :
-    ∃ b' o', nextAt C (appendRec C f d ++ post) (endB f) (endO f) ((appendRec C f d ++ post).size + 1)
+theorem C11_next (tol : Bool) (f d post : ByteArray) (hd : 0 < d.size) :
+    ∃ b' o', nextAt C tol (appendRec C f d ++ post) (endB f) (endO f) ((appendRec C f d ++ post).size + 1)
         = .ok (d, (posOf C 0 f.size d).size, b', o') ∧
       b' * BS + o' = (appendRec C f d).size ∧ 0 < o' ∧ o' ≤ BS :=
-  nextAt_write C d f post _ hd (by
+  nextAt_write C tol d f post _ hd (by
     have := size_appendRec_gt C f d hd
     rw [ByteArray.size_append]; omega)
 
 /-- whole-file scan: any sequence of non-empty records appended to the empty file is read back in
     order, byte-identical, with exactly the positions reported at write time, then EOF; the
     reader's valid end is the file size -/
-theorem C11_scan (fid : Nat) (ds : List ByteArray) (hpos : ∀ d ∈ ds, 0 < d.size) :
-    scan C fid (appendAll C ByteArray.empty ds)
+theorem C11_scan (tol : Bool) (fid : Nat) (ds : List ByteArray) (hpos : ∀ d ∈ ds, 0 < d.size) :
+    scan C tol fid (appendAll C ByteArray.empty ds)
       = { recs := ds.zip (posAll C fid ByteArray.empty ds),
           validEnd := (appendAll C ByteArray.empty ds).size, ok := true } :=
-  scan_build C fid ds hpos
+  scan_build C tol fid ds hpos
 
 /-- the reader reports end of file at the end of **every** file, wherever it falls in a block
     (the pinned reader ran past EOF for end offsets 32761..32767) -/
-theorem C11_eof_everywhere (f : ByteArray) (fuel : Nat) :
-    nextAt C f (endB f) (endO f) (fuel + 1) = .eof :=
-  nextAt_end C f fuel
+theorem C11_eof_everywhere (tol : Bool) (f : ByteArray) (fuel : Nat) :
+    nextAt C tol f (endB f) (endO f) (fuel + 1) = .eof :=
+  nextAt_end C tol f fuel
 
 /-- a multi-record flush (`writeAll`, one write call) stores the bytes of the same records written
     one by one (`writeSingle`), and reports the same positions -/
